@@ -16,8 +16,8 @@ SPEC = dict(
     finding_codes={}, finding_text={},
     level_text='Theorems C12_nearest/C12_exact/C12_supported/C12_written hold for every strictly sorted key list of any length and every '
                'integer request (induction on the binary-search interval, axiom-free); C12_selection_monotone / C12_supported_fixed_point / '
-               'C12_written_monotone (Props/C12Mono.v) add that the selection never inverts the order of two requests, that a supported '
-               'request is handed through unchanged, and that with non-decreasing outputs the written value is monotone in the request; the model is tied to the Go code by a '
+               'C12_written_monotone / C12_outputs_reachable (Props/C12Mono.v) add that the selection never inverts the order of two requests, that a supported '
+               'request is handed through unchanged, that with non-decreasing outputs the written value is monotone in the request, and that every output value of the map stays reachable through a supported input; the model is tied to the Go code by a '
                'reflexivity lemma on the regenerated getClosest and by a differential run of the real FindClosest / '
                'ExtractKeysWithDistinctValues / setPwm on exhaustive small and random full-size maps.',
     level_note='trusted: Coq kernel; hand-written model of FindClosest/ExtractKeysWithDistinctValues/setPwm, agreement with the code observed on the generated cases; outputs != -1',
